@@ -85,6 +85,19 @@ CLAIMED["C09"] = {
     "assumptions": ["each Runtime is driven by exactly one goroutine (the documented topology)", "yield points are the interpreter's own per-step context polls; code between two polls runs atomically"],
 }
 
+CLAIMED["C10"] = {
+    "engine": "determinism",
+    "level": "exploration",
+    "technique": "deterministic simulation used as its own determinism proof pointed at the interpreter: each (source, configuration) is re-executed under controlled repetition, preceding activity, seeded step-level interleaving with other runtimes, heap churn and forced GC, chunked source delivery, fresh processes with different GOMAXPROCS/GOGC/environment, and a fake clock; transcripts must be byte-identical",
+    "text": "Programs biased to what could leak nondeterminism (sorted-maps of 4-12 mixed string/symbol/keyword keys printed, enumerated, compared, JSON-dumped, formatted and carried in error data; closures with several captured bindings; gensym; debug-print and debug-stack; schema validators; help listings; package exports) are each evaluated 6 times in one process - twice in fresh runtimes, after unrelated programs ran in other runtimes, with the source delivered in 1-byte and seeded-size reads (and with >=128 KiB padding across the scanner window), and interleaved step by step with two unrelated runtimes under a seeded schedule with heap churn and forced GC - and again in two further fresh processes with different GOMAXPROCS, GOGC and environment. Value, stderr bytes, condition, error message, rendered trace and step count must all be byte-identical. Clock-reading programs are run twice on a fake clock. Seeded sampling.",
+    "note": "Trusted: the transcript extraction in sim/e6_determinism.go. A Go-map-order leak over n keys survives one comparison with probability about 1/n; six in-process runs plus two processes leave about n^-7. Host-dependent builtins (file loading) are outside the property and not generated; time builtins are only compared under the fake clock.",
+    "design_ref": "4/C10",
+    "rule": "case = program + unrelated noise program + configuration + chunk sizes + padding + schedule; each case is executed 6 times in-process and once in each of two further processes. distinct_nontrivial counts distinct reference-transcript hashes (every case is run under all perturbations, so every case is non-trivial).",
+    "real": REAL + ["lisp/lisplib/* (json, schema, help, time, string ...)", "parser/token scanner window under chunked delivery"],
+    "stubs": STUBS + ["goroutine scheduler (baton) with heap churn and forced GC", "chunking io.Reader", "fake clock (testing/synctest) for clock-reading programs", "fresh worker processes with different GOMAXPROCS/GOGC/environment"],
+    "assumptions": ["file loading and wall-clock builtins are the documented exceptions and are not compared outside the fake clock"],
+}
+
 NOT_APPLICABLE = {
     "C01": "pure function of the program text: no schedule, clock, fault or history in the statement; needs a definitional interpreter (differential testing), which is a different technique",
     "C02": "relation between two fault-free deterministic executions under two static configurations plus a height bound that is a function of the program; nothing for a simulator to schedule or inject (the TRO knob is still randomised inside C04-C06)",
@@ -94,7 +107,6 @@ NOT_APPLICABLE = {
     "C13": "law over a single JSON value / document; no schedule, clock, fault or history",
     "C14": "law over schema x value; no schedule, clock, fault or history",
     "C08": "a simulation target in DESIGN.md (history clauses); check not built yet at this commit",
-    "C10": "a simulation target in DESIGN.md; check not built yet at this commit",
     "C11": "a simulation target in DESIGN.md (history clauses); check not built yet at this commit",
     "C16": "text-to-text function of the source; no schedule, clock, fault or history",
     "C17": "program-equivalence between two fault-free evaluations; no schedule, clock, fault or history",
